@@ -72,3 +72,11 @@ package node
 // Without the restriction on the type the statement fails (known finding: NewType accepts a type that
 // contains '<', which Parse then splits at the wrong place).
 //@ lemma node-text-splits-any-type(t String, i String) using : validType(t) && validID(i) ==> acceptsTyped(nodeText(t, i)) && nodeTypePart(nodeText(t, i)) == t && nodeIDPart(nodeText(t, i)) == i
+
+// NewBlankNode takes its identifier from a generator goroutine (random UUIDs). ASSUMED: a new node
+// object of the blank type; that its identifier differs from every other one is the generator's
+// (probabilistic) promise and is not modelled beyond the freshness of the object.
+//@ props C04 C08
+//@ func NewBlankNode
+//@   nobody
+//@   ensures[fresh-blank-node] result != nil && fresh(result) && wfNode(result) && deref(result.t) == "/_"
